@@ -16,6 +16,7 @@ Variable lookup_scan : E -> list kp -> option bid.
 Variable waits : E -> list kp -> bool.
 Variable eff : bid -> list kp -> E -> E * option res.
 Variable is_cprh : bid -> bool.
+Variable cpr_lookup : E -> option bid.
 Variable restart : E -> E.
 Variable pfeed : str -> PS -> PS * list kp.
 Variable pflush : PS -> PS * list kp.
@@ -27,18 +28,27 @@ Notation call := (call eff is_cprh).
 Notation scan := (@scan E bid res lookup_scan).
 Notation loop := (loop lookup lookup_scan waits eff is_cprh).
 Notation send := (send lookup lookup_scan waits eff is_cprh).
-Notation process_q := (process_q lookup lookup_scan waits eff is_cprh).
-Notation pk := (@pk E bid res PS lookup lookup_scan waits eff is_cprh).
-Notation feed_keys := (@feed_keys E bid res PS lookup lookup_scan waits eff is_cprh).
-Notation do_read := (@do_read E bid res PS lookup lookup_scan waits eff is_cprh pfeed res_eof).
-Notation step := (@step E bid res PS lookup lookup_scan waits eff is_cprh restart pfeed pflush res_eof).
-Notation run := (@run E bid res PS lookup lookup_scan waits eff is_cprh restart pfeed pflush res_eof).
-Notation Jc := (@Jc E bid res waits).
-Notation Js := (@Js E bid res PS waits).
+Notation handle_cpr := (handle_cpr eff is_cprh cpr_lookup).
+Notation deliver := (deliver lookup lookup_scan waits eff is_cprh cpr_lookup).
+Notation process_q := (process_q lookup lookup_scan waits eff is_cprh cpr_lookup).
+Notation pk := (@pk E bid res PS lookup lookup_scan waits eff is_cprh cpr_lookup).
+Notation feed_keys := (@feed_keys E bid res PS lookup lookup_scan waits eff is_cprh cpr_lookup).
+Notation do_read := (@do_read E bid res PS lookup lookup_scan waits eff is_cprh cpr_lookup pfeed res_eof).
+Notation step := (@step E bid res PS lookup lookup_scan waits eff is_cprh cpr_lookup restart pfeed pflush res_eof).
+Notation run := (@run E bid res PS lookup lookup_scan waits eff is_cprh cpr_lookup restart pfeed pflush res_eof).
+Notation Jc := (@Jc E bid res).
+Notation Js := (@Js E bid res PS).
 
-Hypothesis Hexit : exit_clean lookup lookup_scan waits eff is_cprh.
-Hypothesis Hcpr : cpr_fires lookup waits eff.
-Hypothesis Hcprh : forall b ks e, is_cprh b = true -> eff b ks e = (e, None).
+(* the key buffer between two activations: empty, or still a prefix of a longer binding *)
+Definition KB (c : core) : Prop := kbuf c = [] \/ waits (est c) (kbuf c) = true.
+
+(* no binding that ends the prompt fires from the retry scan with keys left in
+   the buffer (so nothing is ever pushed back to the queue) *)
+Definition no_pushback : Prop :=
+  forall (c : core) it, cph c = CRun res -> pb c = [] -> KB c -> pb (send it c) = [].
+
+Hypothesis Hsil : cpr_silent eff cpr_lookup.
+Hypothesis Hnp : no_pushback.
 
 (* ---------------------------------------------------------------------- *)
 (* the three fields the dispatch depends on *)
@@ -66,6 +76,16 @@ Qed.
 Lemma set_kbuf_congr l a b : core_eq a b -> core_eq (set_kbuf l a) (set_kbuf l b).
 Proof. intros (H1 & H2 & H3). unfold core_eq; cbn [est kbuf cph set_kbuf]. auto. Qed.
 
+Lemma push_back_congr a b : core_eq a b -> core_eq (push_back a) (push_back b).
+Proof. intros (H1 & H2 & H3). unfold core_eq; cbn [est kbuf cph push_back]. auto. Qed.
+
+Lemma retry_congr (k : core -> core) a b :
+  (forall x y, core_eq x y -> core_eq (k x) (k y)) -> core_eq a b -> core_eq (retry k a) (retry k b).
+Proof.
+  intros HK H. pose proof H as (H1 & H2 & H3). unfold retry, late. rewrite <- H3.
+  destruct (cph a); [apply HK; exact H|apply push_back_congr; exact H|apply push_back_congr; exact H].
+Qed.
+
 Lemma loop_congr fuel : forall fl a b, core_eq a b -> core_eq (loop fuel fl a) (loop fuel fl b).
 Proof.
   induction fuel as [|f IH]; intros fl a b H; pose proof H as (H1 & H2 & H3); cbn [C17_Typeahead.loop].
@@ -74,84 +94,74 @@ Proof.
     pose proof (fun n => scan_congr n a b H1 H2) as SC.
     destruct (kbuf a) as [|k0 tl0] eqn:KA; [exact H|].
     rewrite <- SC.
+    assert (DR : core_eq (set_kbuf tl0 (add_ev (@EDrop bid (late a) k0) a)) (set_kbuf tl0 (add_ev (@EDrop bid (late b) k0) b))).
+    { unfold core_eq; cbn [est kbuf cph set_kbuf add_ev]. auto. }
     destruct (cph a) eqn:PA.
     + destruct (negb fl && waits (est a) (k0 :: tl0)); [exact H|].
       destruct (lookup (est a) (k0 :: tl0)).
       * apply set_kbuf_congr. apply call_congr. exact H.
       * destruct (scan (length (k0 :: tl0)) a) as [[x i]|].
-        -- apply IH. apply set_kbuf_congr. apply call_congr. exact H.
-        -- apply IH. unfold core_eq, late; cbn [est kbuf cph set_kbuf add_ev]. repeat split; congruence.
+        -- apply retry_congr; [intros; apply IH; assumption|]. apply set_kbuf_congr. apply call_congr. exact H.
+        -- apply retry_congr; [intros; apply IH; assumption|exact DR].
     + destruct (negb fl && waits (est a) (k0 :: tl0)); [exact H|].
       destruct (lookup (est a) (k0 :: tl0)).
       * apply set_kbuf_congr. apply call_congr. exact H.
       * destruct (scan (length (k0 :: tl0)) a) as [[x i]|].
-        -- apply IH. apply set_kbuf_congr. apply call_congr. exact H.
-        -- apply IH. unfold core_eq, late; cbn [est kbuf cph set_kbuf add_ev]. repeat split; congruence.
+        -- apply retry_congr; [intros; apply IH; assumption|]. apply set_kbuf_congr. apply call_congr. exact H.
+        -- apply retry_congr; [intros; apply IH; assumption|exact DR].
     + exact H.
 Qed.
 
 Lemma send_congr it a b : core_eq a b -> core_eq (send it a) (send it b).
 Proof.
   intros H. pose proof H as (H1 & H2 & H3). destruct it as [k|]; unfold C17_Typeahead.send; rewrite <- H2.
-  - apply loop_congr.
-    destruct (is_cpr k && negb (cpr_alone lookup waits is_cprh a k));
-      destruct (is_cpr k && negb (cpr_alone lookup waits is_cprh b k));
-      unfold core_eq; cbn [est kbuf cph set_kbuf set_bad]; rewrite H1, H3; auto.
+  - apply loop_congr. unfold core_eq; cbn [est kbuf cph set_kbuf]. rewrite H2. auto.
   - apply loop_congr. exact H.
 Qed.
 
-(* ---------------------------------------------------------------------- *)
-(* the ghost flag only ever goes up *)
-
-Lemma loop_bad fuel : forall fl (c : core), cpr_bad (loop fuel fl c) = cpr_bad c.
+(* a report leaves the dispatch state as it was *)
+Lemma handle_cpr_core_eq k (c : core) : core_eq (handle_cpr k c) c.
 Proof.
-  induction fuel as [|f IH]; intros fl c; cbn [C17_Typeahead.loop].
-  - destruct (kbuf c); reflexivity.
-  - destruct (kbuf c) as [|k0 tl0]; [reflexivity|].
-    destruct (cph c); [| |reflexivity].
-    + destruct (negb fl && waits (est c) (k0 :: tl0)); [reflexivity|].
-      destruct (lookup (est c) (k0 :: tl0)); [reflexivity|].
-      destruct (scan (length (k0 :: tl0)) c) as [[x i]|]; rewrite IH; reflexivity.
-    + destruct (negb fl && waits (est c) (k0 :: tl0)); [reflexivity|].
-      destruct (lookup (est c) (k0 :: tl0)); [reflexivity|].
-      destruct (scan (length (k0 :: tl0)) c) as [[x i]|]; rewrite IH; reflexivity.
+  destruct (@handle_cpr_eq E bid res eff is_cprh cpr_lookup Hsil k c) as (E1 & E2 & E3 & _).
+  unfold core_eq. auto.
 Qed.
 
-Lemma send_bad_mono it (c : core) : cpr_bad c = true -> cpr_bad (send it c) = true.
+(* the key buffer is empty or waiting whenever the coroutine yields with the result unset *)
+Lemma loop_KB fuel : forall fl (c : core),
+  (length (kbuf c) < fuel)%nat -> cph (loop fuel fl c) = CRun res -> KB (loop fuel fl c).
 Proof.
-  intros H. destruct it as [k|]; unfold C17_Typeahead.send; rewrite loop_bad; [|exact H].
-  destruct (is_cpr k && negb (cpr_alone lookup waits is_cprh c k)); [reflexivity|exact H].
+  induction fuel as [|f IH]; intros fl c H PR; [lia|]. cbn [C17_Typeahead.loop] in *.
+  destruct (kbuf c) as [|k0 tl0] eqn:KBE; [left; exact KBE|].
+  assert (R : forall c1, (length (kbuf c1) < f)%nat -> cph (retry (loop f false) c1) = CRun res -> KB (retry (loop f false) c1)).
+  { intros c1 L1 P1. unfold retry in *. destruct (late c1) eqn:LT.
+    - unfold late in LT. cbn [cph push_back] in P1. rewrite P1 in LT. discriminate.
+    - apply IH; assumption. }
+  assert (G : forall b i, scan (length (k0 :: tl0)) c = Some (b, i) ->
+          (length (kbuf (set_kbuf (skipn i (k0 :: tl0)) (call b (firstn i (k0 :: tl0)) c))) < f)%nat).
+  { intros b i S. apply (@scan_bounds E bid res lookup_scan) in S. cbn [kbuf set_kbuf]. rewrite skipn_length. cbn [length] in *. lia. }
+  assert (D : (length (kbuf (set_kbuf tl0 (add_ev (@EDrop bid (late c) k0) c))) < f)%nat).
+  { cbn [kbuf set_kbuf]. cbn [length] in H. lia. }
+  destruct (cph c) eqn:PH.
+  - destruct (negb fl && waits (est c) (k0 :: tl0)) eqn:W.
+    + right. rewrite KBE. apply andb_prop in W. tauto.
+    + destruct (lookup (est c) (k0 :: tl0)); [left; reflexivity|].
+      destruct (scan (length (k0 :: tl0)) c) as [[b i]|] eqn:S.
+      * apply R; [exact (G b i eq_refl)|exact PR].
+      * apply R; [exact D|exact PR].
+  - destruct (negb fl && waits (est c) (k0 :: tl0)) eqn:W.
+    + right. rewrite KBE. apply andb_prop in W. tauto.
+    + destruct (lookup (est c) (k0 :: tl0)); [left; reflexivity|].
+      destruct (scan (length (k0 :: tl0)) c) as [[b i]|] eqn:S.
+      * apply R; [exact (G b i eq_refl)|exact PR].
+      * apply R; [exact D|exact PR].
+  - congruence.
 Qed.
 
-Lemma send_bad_alone k (c : core) :
-  cpr_bad (send (IKey k) c) = false -> is_cpr k = true -> cpr_alone lookup waits is_cprh c k = true.
+Lemma send_KB it (c : core) : cph (send it c) = CRun res -> KB (send it c).
 Proof.
-  unfold C17_Typeahead.send. rewrite loop_bad. intros H CK. rewrite CK in H. cbn [andb] in H.
-  destruct (cpr_alone lookup waits is_cprh c k); [reflexivity|]. cbn [negb] in H. cbn [cpr_bad set_kbuf set_bad] in H. discriminate.
-Qed.
-
-Lemma process_q_bad_mono q : forall c : core, cpr_bad c = true -> cpr_bad (fst (process_q q c)) = true.
-Proof.
-  induction q as [|it q IH]; intros c H; cbn [C17_Typeahead.process_q]; [exact H|].
-  destruct (cph c); [| |exact H].
-  - apply IH. apply send_bad_mono. exact H.
-  - destruct (item_is_cpr it); [apply IH; apply send_bad_mono; exact H|]. cbn [fst]. apply IH. exact H.
-Qed.
-
-(* a report consumed by its handler alone leaves the dispatch state as it was *)
-Lemma send_cpr_alone k (c : core) :
-  cph c <> CBroken res -> cpr_alone lookup waits is_cprh c k = true -> core_eq (send (IKey k) c) c.
-Proof.
-  intros NB A. unfold cpr_alone in A. destruct (kbuf c) eqn:KBE; [|discriminate].
-  apply andb_prop in A. destruct A as [W L]. apply negb_true_iff in W.
-  destruct (lookup (est c) [k]) as [b|] eqn:LK; [|discriminate].
-  unfold C17_Typeahead.send. rewrite KBE. cbn [length app].
-  set (c1 := if is_cpr k && negb (cpr_alone lookup waits is_cprh c k) then set_bad c else c).
-  assert (E1 : est c1 = est c) by (unfold c1; destruct (is_cpr k && negb (cpr_alone lookup waits is_cprh c k)); reflexivity).
-  assert (P1 : cph c1 = cph c) by (unfold c1; destruct (is_cpr k && negb (cpr_alone lookup waits is_cprh c k)); reflexivity).
-  cbn [C17_Typeahead.loop kbuf set_kbuf cph est]. rewrite P1, E1, W, LK. cbn [negb andb].
-  destruct (cph c) eqn:PH; [| |contradiction];
-    unfold core_eq, C17_Typeahead.call; cbn [kbuf set_kbuf cph est]; rewrite E1, P1, (Hcprh b [k] (est c) L), KBE, PH; cbn [fst snd]; auto.
+  destruct it as [k|]; unfold C17_Typeahead.send; intros PR.
+  - apply loop_KB; [|exact PR]. cbn [kbuf set_kbuf]. rewrite app_length; cbn [length]; lia.
+  - apply loop_KB; [lia|exact PR].
 Qed.
 
 (* ---------------------------------------------------------------------- *)
@@ -209,52 +219,66 @@ Proof.
   - split; [reflexivity|]. cbn [snd]. unfold core_eq. repeat split; congruence.
 Qed.
 
-Lemma nc_single k : is_cpr k = false -> nc [k] = [k].
-Proof. unfold nc; cbn [filter]. intros ->. reflexivity. Qed.
+Definition KBr (c : core) : Prop := cph c = CRun res -> KB c.
+
+Lemma KBr_congr a b : core_eq a b -> KBr a -> KBr b.
+Proof. intros (H1 & H2 & H3) K P. unfold KB. rewrite <- H1, <- H2. apply K. congruence. Qed.
+
+Lemma acc_clear (c : core) : pb c = [] -> acc (clear_pb c) = acc c.
+Proof. intros P. unfold acc; cbn [kbuf pb clear_pb]. rewrite P. reflexivity. Qed.
 
 Lemma pq_R q : forall (c : core) rs st,
-  Jc c -> Forall nf q -> cpr_bad (fst (process_q q c)) = false -> st_eq st (absc rs c) ->
+  pb c = [] -> KBr c -> Forall nf q -> st_eq st (absc rs c) ->
   exists D, nc (acc (fst (process_q q c))) = nc (acc c) ++ D /\
-            st_eq (ref D st) (absc rs (fst (process_q q c))).
+            st_eq (ref D st) (absc rs (fst (process_q q c))) /\
+            KBr (fst (process_q q c)) /\ pb (fst (process_q q c)) = [] /\
+            (cph (fst (process_q q c)) = CRun res -> snd (process_q q c) = []).
 Proof.
-  induction q as [|it q IH]; intros c rs st J F B S; cbn [C17_Typeahead.process_q] in *.
-  - exists []. rewrite app_nil_r. auto.
+  induction q as [|it q IH]; intros c rs st P0 K F S; cbn [C17_Typeahead.process_q] in *.
+  - exists []. rewrite app_nil_r. auto 6.
   - inversion F as [|? ? F1 F2]; subst.
     destruct (cph c) eqn:PH.
     + (* result not set: the item is popped *)
       destruct it as [k|]; [|exfalso; apply F1; reflexivity].
-      pose proof (@send_Jc_run E bid res lookup lookup_scan waits eff is_cprh Hexit (IKey k) c PH J) as J'.
-      assert (B' : cpr_bad (send (IKey k) c) = false).
-      { destruct (cpr_bad (send (IKey k) c)) eqn:X; [|reflexivity].
-        rewrite (process_q_bad_mono q _ X) in B. discriminate. }
+      cbn [fst snd C17_Typeahead.deliver].
       destruct (is_cpr k) eqn:CK.
-      * pose proof (send_cpr_alone k c (proj1 J) (send_bad_alone k c B' CK)) as CE.
-        destruct (IH (send (IKey k) c) rs st J' F2 B) as (D & A1 & A2).
-        { eapply st_eq_trans; [exact S|]. apply absc_congr. apply core_eq_sym. exact CE. }
-        exists D. split; [|exact A2]. rewrite A1, send_acc_key, nc_app, (nc_cpr k CK), app_nil_r. reflexivity.
-      * assert (S2 : core_eq (snd st) c) by (destruct S as [_ S2]; unfold absc in S2; rewrite PH in S2; exact S2).
+      * pose proof (handle_cpr_core_eq k c) as CE.
+        destruct (@handle_cpr_eq E bid res eff is_cprh cpr_lookup Hsil k c) as (_ & _ & _ & E4 & _).
+        assert (CE' : core_eq (clear_pb (handle_cpr k c)) c).
+        { destruct CE as (X1 & X2 & X3). unfold core_eq; cbn [est kbuf cph clear_pb]. auto. }
+        destruct (IH (clear_pb (handle_cpr k c)) rs st eq_refl (KBr_congr _ _ (core_eq_sym _ _ CE') K) F2) as (D & A1 & A2 & A3 & A4 & A5).
+        { eapply st_eq_trans; [exact S|]. apply absc_congr. apply core_eq_sym. exact CE'. }
+        exists D. rewrite E4, P0. cbn [map app].
+        split; [|auto]. rewrite A1, acc_clear; [|rewrite E4; exact P0].
+        rewrite (@handle_cpr_acc E bid res eff is_cprh cpr_lookup k c CK). reflexivity.
+      * assert (PB : pb (send (IKey k) c) = []) by (apply Hnp; [exact PH|exact P0|exact (K PH)]).
+        assert (S2 : core_eq (snd st) c) by (destruct S as [_ S2]; unfold absc in S2; rewrite PH in S2; exact S2).
         pose proof (send_congr (IKey k) _ _ S2) as CE.
-        destruct (IH (send (IKey k) c) rs (absc (fst st) (send (IKey k) (snd st))) J' F2 B) as (D & A1 & A2).
+        assert (CE' : core_eq (send (IKey k) (snd st)) (clear_pb (send (IKey k) c))).
+        { destruct CE as (X1 & X2 & X3). unfold core_eq; cbn [est kbuf cph clear_pb]. auto. }
+        assert (K' : KBr (clear_pb (send (IKey k) c))).
+        { intros X. cbn [cph clear_pb] in X. pose proof (send_KB (IKey k) c X) as Y. unfold KB in *. cbn [est kbuf clear_pb]. exact Y. }
+        destruct (IH (clear_pb (send (IKey k) c)) rs (absc (fst st) (send (IKey k) (snd st))) eq_refl K' F2) as (D & A1 & A2 & A3 & A4 & A5).
         { destruct S as [S1 _]. unfold absc in S1. rewrite PH in S1. cbn [fst] in S1. rewrite S1.
-          apply absc_congr. exact CE. }
-        exists (k :: D). split.
-        -- rewrite A1, send_acc_key, nc_app, (nc_single k CK), <- app_assoc. reflexivity.
+          apply absc_congr. exact CE'. }
+        exists (k :: D). rewrite PB. cbn [map app]. split; [|split; [|auto]].
+        -- rewrite A1, acc_clear; [|exact PB]. rewrite (@send_acc_key E bid res lookup lookup_scan waits eff is_cprh k c P0), nc_app, (nc_single k CK), <- app_assoc. reflexivity.
         -- cbn [ref]. unfold absc in A2 at 1.
            destruct (cph (send (IKey k) (snd st))); exact A2.
     + (* result set: only reports are taken out *)
       assert (NR : not_run c) by (unfold not_run; congruence).
       destruct (item_is_cpr it) eqn:CI.
-      * destruct it as [k|]; [|discriminate]. cbn [item_is_cpr] in CI.
-        pose proof (@send_Jc_done_cpr E bid res lookup lookup_scan waits eff is_cprh Hcpr k c r CI PH J) as J'.
-        assert (B' : cpr_bad (send (IKey k) c) = false).
-        { destruct (cpr_bad (send (IKey k) c)) eqn:X; [|reflexivity].
-          rewrite (process_q_bad_mono q _ X) in B. discriminate. }
-        pose proof (send_cpr_alone k c (proj1 J) (send_bad_alone k c B' CI)) as CE.
-        destruct (IH (send (IKey k) c) rs st J' F2 B) as (D & A1 & A2).
+      * destruct it as [k|]; [|discriminate]. cbn [item_is_cpr] in CI. cbn [C17_Typeahead.deliver]. rewrite CI.
+        pose proof (handle_cpr_core_eq k c) as CE.
+        destruct (@handle_cpr_eq E bid res eff is_cprh cpr_lookup Hsil k c) as (_ & _ & _ & E4 & _).
+        destruct (IH (handle_cpr k c) rs st (eq_trans E4 P0) (KBr_congr _ _ (core_eq_sym _ _ CE) K) F2) as (D & A1 & A2 & A3 & A4 & A5).
         { eapply st_eq_trans; [exact S|]. apply absc_congr. apply core_eq_sym. exact CE. }
-        exists D. split; [|exact A2]. rewrite A1, send_acc_key, nc_app, (nc_cpr k CI), app_nil_r. reflexivity.
-      * cbn [fst] in *. apply IH; assumption.
-    + destruct J as (NB & _). contradiction.
+        exists D. split; [|auto]. rewrite A1, (@handle_cpr_acc E bid res eff is_cprh cpr_lookup k c CI). reflexivity.
+      * cbn [fst snd] in *. destruct (IH c rs st P0 K F2 S) as (D & A1 & A2 & A3 & A4 & A5).
+        exists D. split; [exact A1|]. split; [exact A2|]. split; [exact A3|]. split; [exact A4|].
+        intros X. exfalso.
+        destruct (@process_q_done E bid res lookup lookup_scan waits eff is_cprh cpr_lookup q c NR) as (_ & _ & NR'). exact (NR' X).
+    + exists []. rewrite app_nil_r. split; [reflexivity|]. split; [exact S|]. split; [exact K|]. split; [exact P0|]. intros X. cbn [fst] in X. congruence.
 Qed.
 
 (* ---------------------------------------------------------------------- *)
@@ -271,19 +295,23 @@ Variable e0 : E.
 Definition R (s : sys) : Prop :=
   st_eq (ref (nc (acc (co s))) ([], fresh (restart e0))) (abs s).
 
-Lemma R_pk (s : sys) : at_ s <> Detached -> Jc (co s) -> Forall nf (queue s) ->
-  cpr_bad (co (pk s)) = false -> R s -> R (pk s).
+Definition Ks (s : sys) : Prop := KBr (co s) /\ pb (co s) = [].
+
+Lemma R_pk (s : sys) : at_ s <> Detached -> Ks s -> Forall nf (queue s) -> R s -> R (pk s) /\ Ks (pk s).
 Proof.
-  intros A J F B H. unfold R in *. unfold C17_Typeahead.pk in *. cbn [co with_co with_queue] in *.
+  intros A (K & P0) F H. unfold R in *. unfold C17_Typeahead.pk in *. cbn [co with_co with_queue] in *.
   assert (AB : abs s = absc (results s) (co s)) by (unfold abs; destruct (at_ s); [contradiction| |]; reflexivity).
   rewrite AB in H.
-  destruct (pq_R (queue s) (co s) (results s) _ J F B H) as (D & A1 & A2).
+  destruct (pq_R (queue s) (co s) (results s) _ P0 K F H) as (D & A1 & A2 & A3 & A4 & _).
+  split; [|split; assumption].
   rewrite A1, ref_app. unfold abs, with_co, with_queue; cbn [at_ results co].
   destruct (at_ s); [contradiction| |]; exact A2.
 Qed.
 
 Lemma R_same (s s' : sys) : co s' = co s -> at_ s' = at_ s -> results s' = results s -> R s -> R s'.
 Proof. intros H1 H2 H3. unfold R, abs. rewrite H1, H2, H3. auto. Qed.
+Lemma Ks_same (s s' : sys) : co s' = co s -> Ks s -> Ks s'.
+Proof. intros H1. unfold Ks. rewrite H1. auto. Qed.
 
 Lemma R_finish r (s : sys) : at_ s <> Detached -> cph (co s) = CDone r -> R s -> R (finish r s).
 Proof.
@@ -304,108 +332,73 @@ Qed.
 
 Lemma R_wcpr n (s : sys) : R s -> R (with_co (set_wcpr n (co s)) s).
 Proof. intros H. apply R_core_eq; [reflexivity|unfold core_eq; auto|exact H]. Qed.
-
-Lemma pk_bad_mono (s : sys) : cpr_bad (co s) = true -> cpr_bad (co (pk s)) = true.
-Proof. intros H. unfold C17_Typeahead.pk; cbn [co with_co]. apply process_q_bad_mono. exact H. Qed.
+Lemma Ks_wcpr n (s : sys) : Ks s -> Ks (with_co (set_wcpr n (co s)) s).
+Proof. intros H. exact H. Qed.
 
 Definition quiet1 (l : label) : Prop := l <> LClose /\ l <> LFlushInput /\ l <> LFlushKeys.
 
-Lemma R_do_read n (s : sys) : at_ s <> Detached -> Js s -> cpr_bad (co (do_read n s)) = false -> R s -> R (do_read n s).
+Lemma R_do_read n (s : sys) : at_ s <> Detached -> Js s -> Ks s -> R s -> R (do_read n s) /\ Ks (do_read n s).
 Proof.
-  intros A (J & _ & _ & F & G & W) B H. unfold C17_Typeahead.do_read in *. cbv zeta in *. rewrite W in *.
+  intros A (J & _ & _ & F & G & W) K H. unfold C17_Typeahead.do_read in *. cbv zeta in *. rewrite W in *.
   destruct (pipe s).
   - apply R_pk; assumption.
-  - unfold C17_Typeahead.feed_keys in *. apply R_pk; cbn [co queue at_]; [exact A|exact J| |exact B|].
+  - unfold C17_Typeahead.feed_keys in *. apply R_pk; cbn [co queue at_]; [exact A|exact K| |].
     + apply Forall_app; split; [exact F|apply nf_map].
     + eapply R_same; [| | |exact H]; reflexivity.
 Qed.
 
-Lemma R_step (s : sys) l : quiet1 l -> Js s -> cpr_bad (co (step s l)) = false -> R s -> R (step s l).
+Lemma R_step (s : sys) l : quiet1 l -> Js s -> Ks s -> R s -> R (step s l) /\ Ks (step s l).
 Proof.
-  intros (Q1 & Q2 & Q3) J B H. pose proof J as (Jc0 & D & Q & F & G & W).
+  intros (Q1 & Q2 & Q3) J K H. pose proof J as (Jc0 & D & Q & F & G & W).
   unfold C17_Typeahead.step in *.
-  destruct (cph (co s)) eqn:PH; destruct l; try exact H; try congruence.
-  all: try (destruct (wclosed s); [exact H|]; eapply R_same; [| | |exact H]; reflexivity).
-  all: try (destruct (at_ s) eqn:A; try exact H;
-            try (apply R_do_read; [congruence|exact J|exact B|exact H]);
-            try (destruct (wcpr (co s)); [exact H|apply R_do_read; [congruence|exact J|exact B|exact H]]);
-            try (eapply R_same; [| | |exact H]; reflexivity);
-            try (apply R_wcpr; exact H); fail).
+  destruct (cph (co s)) eqn:PH; destruct l; try (split; [exact H|exact K]); try congruence.
+  all: try (destruct (wclosed s); [split; [exact H|exact K]|];
+            split; [eapply R_same; [| | |exact H]; reflexivity|eapply Ks_same; [|exact K]; reflexivity]).
+  all: try (destruct (at_ s) eqn:A; try (split; [exact H|exact K]);
+            try (apply R_do_read; [congruence|exact J|exact K|exact H]);
+            try (destruct (wcpr (co s)); [split; [exact H|exact K]|apply R_do_read; [congruence|exact J|exact K|exact H]]);
+            try (split; [apply R_wcpr; exact H|apply Ks_wcpr; exact K]); fail).
   - (* LStart, result not set *)
-    destruct (at_ s) eqn:A; [|exact H|exact H].
+    destruct (at_ s) eqn:A; [|split; [exact H|exact K]|split; [exact H|exact K]].
     destruct (D eq_refl) as [D1 D2]. rewrite D1, D2 in *.
-    apply R_pk; cbn [co queue at_]; auto; try congruence.
-    + destruct Jc0 as (NB & LK & K & OK). unfold C17_Accept.Jc, KB, late; cbn [cph kbuf rlog est].
-      repeat split; auto; try congruence. constructor; [exact I|exact OK].
+    destruct K as (K1 & K2).
+    apply R_pk; cbn [co queue at_]; [congruence| |exact G|].
+    + split; [|exact K2]. intros _. left. reflexivity.
     + unfold R, abs in *. cbn [co at_ results]. rewrite A in H. unfold absc; cbn [cph].
-      unfold acc in *. cbn [kbuf] in *. rewrite D1 in H. unfold logged in *. cbn [rlog rev] in *.
-      rewrite map_app, concat_app. cbn [map concat ev_keys]. rewrite !app_nil_r in *.
+      unfold acc in *. cbn [kbuf pb] in *. rewrite D1, K2 in H. unfold logged in *. cbn [rlog rev] in *.
+      rewrite K2, map_app, concat_app. cbn [map concat ev_keys]. rewrite !app_nil_r in *.
       eapply st_eq_trans; [exact H|]. split; [reflexivity|]. cbn [snd]. unfold core_eq, fresh, init_core; cbn [est kbuf cph]. auto.
   - (* LStart, result of the previous prompt still recorded *)
-    destruct (at_ s) eqn:A; [|exact H|exact H].
+    destruct (at_ s) eqn:A; [|split; [exact H|exact K]|split; [exact H|exact K]].
     destruct (D eq_refl) as [D1 D2]. rewrite D1, D2 in *.
-    apply R_pk; cbn [co queue at_]; auto; try congruence.
-    + destruct Jc0 as (NB & LK & K & OK). unfold C17_Accept.Jc, KB, late; cbn [cph kbuf rlog est].
-      repeat split; auto; try congruence. constructor; [exact I|exact OK].
+    destruct K as (K1 & K2).
+    apply R_pk; cbn [co queue at_]; [congruence| |exact G|].
+    + split; [|exact K2]. intros _. left. reflexivity.
     + unfold R, abs in *. cbn [co at_ results]. rewrite A in H. unfold absc; cbn [cph].
-      unfold acc in *. cbn [kbuf] in *. rewrite D1 in H. unfold logged in *. cbn [rlog rev] in *.
-      rewrite map_app, concat_app. cbn [map concat ev_keys]. rewrite !app_nil_r in *.
+      unfold acc in *. cbn [kbuf pb] in *. rewrite D1, K2 in H. unfold logged in *. cbn [rlog rev] in *.
+      rewrite K2, map_app, concat_app. cbn [map concat ev_keys]. rewrite !app_nil_r in *.
       eapply st_eq_trans; [exact H|]. split; [reflexivity|]. cbn [snd]. unfold core_eq, fresh, init_core; cbn [est kbuf cph]. auto.
   - (* LExit *)
-    destruct (at_ s) eqn:A; [exact H| |exact H].
+    destruct (at_ s) eqn:A; [split; [exact H|exact K]| |split; [exact H|exact K]].
     destruct (rcpr s && negb (Nat.eqb (wcpr (co s)) 0)).
-    + unfold R, abs in *. cbn [co at_ results]. rewrite A in H. exact H.
-    + apply R_finish; [congruence|exact PH|exact H].
+    + split; [|exact K]. unfold R, abs in *. cbn [co at_ results]. rewrite A in H. exact H.
+    + split; [apply R_finish; [congruence|exact PH|exact H]|exact K].
   - (* LExitEnd *)
-    destruct (at_ s) eqn:A; try exact H. destruct (wcpr (co s)); [|exact H].
-    apply R_finish; [congruence|exact PH|exact H].
+    destruct (at_ s) eqn:A; try (split; [exact H|exact K]). destruct (wcpr (co s)); [|split; [exact H|exact K]].
+    split; [apply R_finish; [congruence|exact PH|exact H]|exact K].
   - (* LCprTimeout *)
-    destruct (at_ s) eqn:A; try exact H.
-    apply R_finish; [cbn [at_ with_co]; congruence|exact PH|apply R_wcpr; exact H].
+    destruct (at_ s) eqn:A; try (split; [exact H|exact K]).
+    split; [apply R_finish; [cbn [at_ with_co]; congruence|exact PH|apply R_wcpr; exact H]|exact K].
 Qed.
 
-Lemma do_read_bad_mono n (s : sys) : cpr_bad (co s) = true -> cpr_bad (co (do_read n s)) = true.
+Lemma run_R ls : forall s : sys, quiet ls -> Js s -> Ks s -> R s -> R (run ls s).
 Proof.
-  intros H. unfold C17_Typeahead.do_read. cbv zeta. destruct (pipe s).
-  - pose proof (pk_bad_mono s H) as H'. destruct (wclosed s); [|exact H'].
-    destruct (cph (co (pk s))); [|exact H'|exact H']. cbn [co with_co set_cph cpr_bad]. exact H'.
-  - unfold C17_Typeahead.feed_keys. apply pk_bad_mono. exact H.
-Qed.
-
-Lemma step_bad_mono (s : sys) l : cpr_bad (co s) = true -> cpr_bad (co (step s l)) = true.
-Proof.
-  intros H. unfold C17_Typeahead.step.
-  destruct (cph (co s)) eqn:PH; destruct l; try exact H.
-  all: try (destruct (wclosed s); exact H).
-  all: try (destruct (at_ s); try exact H; try (apply do_read_bad_mono; exact H);
-            try (destruct (wcpr (co s)); [exact H|apply do_read_bad_mono; exact H]);
-            try (unfold C17_Typeahead.feed_keys; apply pk_bad_mono; exact H);
-            try (destruct (kbuf (co s)); [exact H|apply pk_bad_mono; exact H]);
-            try (apply pk_bad_mono; exact H);
-            try (destruct (rcpr s && negb (Nat.eqb (wcpr (co s)) 0)); exact H);
-            try (destruct (wcpr (co s)); exact H); fail).
-Qed.
-
-Lemma run_bad_mono ls : forall s : sys, cpr_bad (co s) = true -> cpr_bad (co (run ls s)) = true.
-Proof.
-  induction ls as [|l ls IH]; intros s H; [exact H|]. cbn [C17_Typeahead.run fold_left].
-  apply IH. apply step_bad_mono. exact H.
-Qed.
-
-Lemma run_R ls : forall s : sys, quiet ls -> Js s -> (cpr_bad (co s) = false -> R s) ->
-  cpr_bad (co (run ls s)) = false -> R (run ls s).
-Proof.
-  induction ls as [|l ls IH]; intros s Q J H B; [exact (H B)|]. cbn [C17_Typeahead.run fold_left] in *.
+  induction ls as [|l ls IH]; intros s Q J K H; [exact H|]. cbn [C17_Typeahead.run fold_left] in *.
   inversion Q as [|? ? Q1 Q2]; subst.
-  assert (B1 : cpr_bad (co (step s l)) = false).
-  { destruct (cpr_bad (co (step s l))) eqn:X; [|reflexivity].
-    pose proof (run_bad_mono ls _ X) as Y. unfold C17_Typeahead.run in Y. rewrite Y in B. discriminate. }
-  assert (B0 : cpr_bad (co s) = false).
-  { destruct (cpr_bad (co s)) eqn:X; [|reflexivity]. rewrite (step_bad_mono s l X) in B1. discriminate. }
-  apply IH; [exact Q2| |intros _|exact B].
-  - apply (@Js_step E bid res PS lookup lookup_scan waits eff is_cprh restart pfeed pflush res_eof Hexit Hcpr);
-      [exact (proj1 Q1)|exact J].
-  - apply R_step; [exact Q1|exact J|exact B1|exact (H B0)].
+  destruct (R_step s l Q1 J K H) as (H' & K').
+  apply IH; [exact Q2| |exact K'|exact H'].
+  apply (@Js_step E bid res PS lookup lookup_scan waits eff is_cprh cpr_lookup restart pfeed pflush res_eof Hsil);
+    [exact (proj1 Q1)|exact J].
 Qed.
 
 End Inv.
@@ -477,16 +470,16 @@ Qed.
 Lemma script ls e p r lines rs :
   quiet ls ->
   let s := run ls (@init E bid res PS e p r) in
-  cpr_bad (co s) = false ->
   lines_ok (restart e) lines rs ->
   (exists tail, nc (decoded s) ++ tail = concat lines) ->
   results s = firstn (length (results s)) rs.
 Proof.
-  intros Q s B LO (tail & T).
+  intros Q s LO (tail & T).
   assert (RR : R e s).
-  { apply run_R; [exact Q|apply Js_init| |exact B].
-    intros _. unfold R, abs, init, acc, logged; cbn. apply st_eq_refl. }
-  destruct (@inv_run E bid res PS lookup lookup_scan waits eff is_cprh restart pfeed pflush res_eof ls
+  { apply run_R; [exact Q|apply Js_init| |].
+    - split; [intros _; left; reflexivity|reflexivity].
+    - unfold R, abs, init, acc, logged; cbn. apply st_eq_refl. }
+  destruct (@inv_run E bid res PS lookup lookup_scan waits eff is_cprh cpr_lookup restart pfeed pflush res_eof ls
               (@init E bid res PS e p r) (inv_init E bid res PS e p r)) as (CONS & _).
   fold s in CONS. rewrite <- CONS, <- app_assoc in T.
   destruct (ref_lines (restart e) lines rs LO _ _ [] T) as (n & Hn).
@@ -496,3 +489,5 @@ Proof.
 Qed.
 
 End P.
+Arguments no_pushback {E bid res} lookup lookup_scan waits eff is_cprh.
+Arguments KB {E bid res} waits c.
